@@ -199,6 +199,8 @@ class C05(CheckBase):
                 probes["eof_inside_string"] += 1
             if w.startswith("truncate@header"):
                 probes["eof_inside_header"] += 1
+            if w.startswith("truncate@data:complex:"):
+                probes["eof_inside_complex"] += 1
         for f in plan["faults"]:
             if f["kind"] == "stretch" and f.get("cls") == "number" and f.get("len", 0) >= 64:
                 probes["stretch_ge_64_number"] += 1
